@@ -155,6 +155,9 @@ func (g *gctx) ruleSoup() (string, string) {
 
 func (g *gctx) scalar() (string, string) {
 	r := g.r
+	if len(g.enums) > 0 && r.pct(12) {
+		return r.pick([]string{`"a.b"`, `1`, `"x"`, `"red"`, `true`}), `{enum: ` + r.pick(g.enums) + `}`
+	}
 	if r.pct(9) {
 		return r.pick([]string{`"abc"`, `1`, `"x"`, `12.5`, `true`}), r.pick(badRules)
 	}
@@ -749,8 +752,11 @@ func genProject(r *rng, tornPct int) Project {
 	case "jschema":
 		names := namePool[:1+r.n(len(namePool)-1)]
 		enums := []string{}
-		if r.pct(30) {
+		if r.pct(50) {
 			enums = []string{"@en"}
+			if r.pct(30) {
+				enums = append(enums, "@en2")
+			}
 		}
 		switch c := r.n(100); {
 		case c < 25:
@@ -881,6 +887,23 @@ func readOps(r *rng, obj int, kind string, min, max int) []Op {
 	return readOpsOf(r, obj, kind, scriptKinds(kind), min, max)
 }
 
+// objOps: the read-only calls of a history on one of its own objects; a project
+// that registered rule or type objects asks those objects more often.
+func objOps(r *rng, obj int, p *Project, min, max int) []Op {
+	ops := readOps(r, obj, p.Kind, min, max)
+	ins := func(kind string) {
+		at := r.n(len(ops) + 1)
+		ops = append(ops[:at:at], append([]Op{{Obj: obj, Kind: kind}}, ops[at:]...)...)
+	}
+	if len(p.Rules) > 0 && r.pct(50) {
+		ins("rules")
+	}
+	if len(p.Types) > 0 && r.pct(35) {
+		ins("types")
+	}
+	return ops
+}
+
 func readOpsOf(r *rng, obj int, kind string, kinds []string, min, max int) []Op {
 	// de-duplicate the regex example repetitions: the generator decides multiplicity
 	uniq := kinds[:0:0]
@@ -983,7 +1006,7 @@ func genWorldC09(seed uint64, proj *Project) *World {
 			o := len(w.Objects)
 			w.Objects = append(w.Objects, p)
 			ops = append(ops, Op{Obj: o, Kind: "build"})
-			ops = append(ops, readOps(r, o, p.Kind, 1, 3)...)
+			ops = append(ops, objOps(r, o, &p, 1, 3)...)
 		}
 	}
 	noise()
@@ -1066,7 +1089,7 @@ func genWorldC10(seed uint64, faults bool) *World {
 		}
 		w.Objects = append(w.Objects, p)
 		q := []Op{{Obj: o, Kind: "build"}}
-		q = append(q, readOps(r, o, p.Kind, 1, 6)...)
+		q = append(q, objOps(r, o, &p, 1, 6)...)
 		if faults && r.pct(12) && p.Kind == "jschema" {
 			// F-panic inside one operation of this object; it is the object's last
 			k := r.n(len(q))
@@ -1154,7 +1177,7 @@ func genWorldC11(seed uint64, tornOthers bool) *World {
 			w.Objects = append(w.Objects, p)
 			w.Shared = append(w.Shared, false)
 			own := []Op{{Obj: o, Kind: "build"}}
-			own = append(own, readOps(r, o, p.Kind, 1, 5)...)
+			own = append(own, objOps(r, o, &p, 1, 5)...)
 			// splice own-object ops among the shared-object ops
 			if len(ops) > 0 && r.pct(50) {
 				cut := r.n(len(ops) + 1)
